@@ -213,7 +213,9 @@ func c18Spaces() [c18NOpt]c18Space {
 	sp[c18Scan].flag3 = [3]c18Src{{}, bare, v("false")}
 	sp[c18Scan].env3 = [3]c18Src{{}, v(""), v("yes")}
 
-	paths := []string{"", "gen", " gen , ,zzz", ",", "testdata", "GEN", "gen,testdata", "zzz", "_test.go", "q.go", " , testdata ,", "gen/q", "Testdata", "a_test.go,t.go", "zzz=x,gen", "=,gen=,testdata"}
+	paths := []string{"", "gen", " gen , ,zzz", ",", "testdata", "GEN", "gen,testdata", "zzz", "_test.go", "q.go", " , testdata ,", "gen/q", "Testdata", "a_test.go,t.go", "zzz=x,gen", "=,gen=,testdata",
+		// items are substrings, not cleaned paths: none of these is contained in a probe file's name
+		"./gen", "gen//q", "gen/./q, p/../gen", "gen/q/."}
 	sp[c18Paths].flagAll = c18Vals(paths...)
 	sp[c18Paths].envAll = c18Vals(paths...)
 	sp[c18Paths].flagRep = c18Vals("", "gen", " gen , ,zzz")
@@ -509,7 +511,7 @@ func C18(tier common.Tier) int {
 	for _, k := range grid.order {
 		nRuns += len(grid.cells[k].Drivers)
 	}
-	run.SetRule("Part 1, finite grid on the real executables, enumerated completely: a probe module (regular file with IMM01, CTOR01, TONL02, PKGO02 on distinct lines; in-package _test.go file; packages in gen/q and testdata/p (named on the command line), each with a _test.go file of its own) is analysed by `gogreement -json` / `go vet -vettool=gogreement -json` (and both text modes on the 3x3 class grid) under every cell of: per option {flag absent, flag empty (bare for the boolean), flag value} x {variable unset, empty, value} over all listed boolean spellings and list shapes (blanks, empty items, mixed case, single comma, near-miss codes, items containing '='); all pairs of options x 9 class states each; all three options sourced from flag/env/both; 18 hostile environment strings per variable (invalid UTF-8, 20 kB, control characters, format verbs, flag look-alikes, trailing newlines). Each run's diagnostic set (file, line, code) must equal the set computed from the reference resolver (flag if given, else variable if set, else default; split/trim/drop-empty/upper-case; boolean table), exit status must be 0 (json) / 0|3 (text) / 0|1 (go vet text), no panic/internal error text. Part 2, exhaustive bounded strings in-process: every string up to the length bound over {a,A,1,comma,space,tab,t,U+00FF,=} (and {y,e,s,o,n,N,space,0} for the boolean) as the value of each GOGREEMENT_* variable and as the value of each flag, through config.FromEnv and CreateFlagSet+Parse+ParseFlagsFromFlagSet in six call shapes, compared field by field with the reference; a panic is a counterexample. A case is non-trivial when the effective configuration differs from the default.",
+	run.SetRule("Part 1, finite grid on the real executables, enumerated completely: a probe module (regular file with IMM01, CTOR01, TONL02, PKGO02 on distinct lines; in-package _test.go file; packages in gen/q and testdata/p (named on the command line), each with a _test.go file of its own) is analysed by `gogreement -json` / `go vet -vettool=gogreement -json` (and both text modes on the 3x3 class grid) under every cell of: per option {flag absent, flag empty (bare for the boolean), flag value} x {variable unset, empty, value} over all listed boolean spellings and list shapes (blanks, empty items, mixed case, single comma, near-miss codes, items containing '=', path-like items that a path cleaner would rewrite); all pairs of options x 9 class states each; all three options sourced from flag/env/both; 18 hostile environment strings per variable (invalid UTF-8, 20 kB, control characters, format verbs, flag look-alikes, trailing newlines). Each run's diagnostic set (file, line, code) must equal the set computed from the reference resolver (flag if given, else variable if set, else default; split/trim/drop-empty/upper-case; boolean table), exit status must be 0 (json) / 0|3 (text) / 0|1 (go vet text), no panic/internal error text. Part 2, exhaustive bounded strings in-process: every string up to the length bound over {a,A,1,comma,space,tab,t,U+00FF,=} (and {y,e,s,o,n,N,space,0} for the boolean) as the value of each GOGREEMENT_* variable and as the value of each flag, through config.FromEnv and CreateFlagSet+Parse+ParseFlagsFromFlagSet in six call shapes, compared field by field with the reference; a panic is a counterexample. A case is non-trivial when the effective configuration differs from the default.",
 		fmt.Sprintf("%d grid cells, %d executions of the real binary; parser sweep: all strings of length <= %d", len(grid.order), nRuns, sweepLen))
 	run.Assume("package flag, go vet's flag forwarding, go/packages and the x/tools drivers are trusted",
 		"GOGREEMENT_ENV_ONLY is unset everywhere",
